@@ -31,9 +31,9 @@ def persistent_writes(st: State, preexisting=()) -> List[tuple]:
     return out
 
 
-def base_types(c: Ctx):
+def base_types(c: Ctx, second_has_ref=True):
     c.new_type("T1", has_ref=True, has_quantum=False, money=False)
-    c.new_type("T2", has_ref=True, has_quantum=False, money=False)
+    c.new_type("T2", has_ref=second_has_ref, has_quantum=False, money=False)
     c.st.distinct_types("T1", "T2")
     c.st.type_defs["T1"] = "base"
     c.st.type_defs["T2"] = "base"
